@@ -187,5 +187,5 @@ def run_go(case: cases.SVCase, stats: Stats) -> None:
 
 PARTS = [
     HypPart("c", strategy, run_case, {"quick": 128, "thorough": 3840}, describe=cases.describe),
-    HypPart("go", go_strategy, run_go, {"quick": 112, "thorough": 4800}, describe=cases.describe),
+    HypPart("go", go_strategy, run_go, {"quick": 800, "thorough": 8000}, describe=cases.describe),
 ]
